@@ -1,5 +1,6 @@
 #!/usr/bin/env python3
-"""dev helper (C12, contracts/codec.vc): apply each mutant to a scratch copy of frost-core and show which named clause catches it.
+"""dev helper (C12, contracts/codec.vc; shows the raw failing clauses -- the VERDICT rule for exact vs p_* clauses is exercised by
+dev/mutants_pclauses.py): apply each mutant to a scratch copy of frost-core and show which named clause catches it.
 usage: dev/mutants_codec.py [name ...]      (scratch copies under /tmp/mutD_<name>; /repo is never touched)"""
 import os, re, shutil, subprocess, sys
 V = os.path.dirname(os.path.dirname(os.path.abspath(__file__)))
@@ -34,7 +35,7 @@ MUTANTS = [
     ('scalar_wrong_len_other_error', 'serialization.rs',
      'bytes.try_into().map_err(|_| FieldError::MalformedScalar)?;\n        let scalar = <<C::Group as Group>::Field>::deserialize',
      'bytes.try_into().map_err(|_| FieldError::InvalidZeroScalar)?;\n        let scalar = <<C::Group as Group>::Field>::deserialize',
-     'wrong-length scalar reported as InvalidZeroScalar'),
+     'wrong-length scalar reported as InvalidZeroScalar (benign w.r.t. C12, which says "rejected"; still decided: the closure clause pins the value)'),
     ('sig_R_wrong_offset', 'signature.rs',
      'bytes.get(0..R_bytes_len)', 'bytes.get(z_bytes_len..z_bytes_len + R_bytes_len)', 'R taken from offset Ns instead of 0'),
     ('vss_serialize_skips_first', 'keys.rs',
